@@ -147,6 +147,7 @@ func evalC16History(h c16History) *Failure {
 // c16Scenario is a re-executable controlled scenario (used for probes of repaired findings).
 type c16Scenario struct {
 	Init   [][]string `json:"init,omitempty"`
+	Warm   [2]bool    `json:"warm,omitempty"` // client A / B first receives an error reply (INCR of a non-integer)
 	Rounds []struct {
 		A    []string `json:"a"`
 		B    []string `json:"b"`
@@ -159,7 +160,7 @@ func evalC16Scenario(sc c16Scenario) *Failure {
 	for _, r := range sc.Rounds {
 		rs = append(rs, [3]interface{}{r.A, r.B, r.Gate})
 	}
-	hist, err := runControlled(sc.Init, rs)
+	hist, err := runControlled(sc.Init, rs, sc.Warm)
 	if err != nil {
 		return failf("harness|controlled", "controlled run: %v", err)
 	}
@@ -214,7 +215,14 @@ func (g *c16Gate) fn(phase, method string, conn *redis.Conn) {
 }
 
 // runControlled executes rounds "A parked at its g-th primitive while B runs" and returns the history.
-func runControlled(init [][]string, rounds [][3]interface{}) (c16History, error) {
+func runControlled(init [][]string, rounds [][3]interface{}, warms ...[2]bool) (c16History, error) {
+	var warm [2]bool
+	if len(warms) > 0 {
+		warm = warms[0]
+	}
+	if warm[0] || warm[1] {
+		init = append(append([][]string{}, init...), []string{"SET", "z", "abc"})
+	}
 	srv := redis.NewServer()
 	store := doubles.NewRefStore()
 	store.SplitRMW = true // a handler that relies on commands being executed one at a time
@@ -234,6 +242,19 @@ func runControlled(init [][]string, rounds [][3]interface{}) (c16History, error)
 	}
 	var clock int64
 	tick := func() int64 { return atomic.AddInt64(&clock, 1) }
+	for cl, w := range warm {
+		if !w {
+			continue
+		}
+		// state left over from an earlier request on the error path: the connection first gets an ordinary error reply
+		cmd := []string{"INCR", "z"}
+		call := tick()
+		frames, _, err := m.Step(cl, resp.Cmd(cmd...).Bytes())
+		if err != nil || len(frames) != 1 {
+			return h, fmt.Errorf("warm-up: %v", err)
+		}
+		h.Ops = append(h.Ops, c16Op{Client: cl, Cmd: cmd, Call: call, Ret: tick(), Out: renderReply(frames[0])})
+	}
 	for _, r := range rounds {
 		opA, opB, gateIdx := r[0].([]string), r[1].([]string), r[2].(int)
 		g.mu.Lock()
@@ -418,7 +439,8 @@ func TestC16(t *testing.T) {
 	h := newHarness(t, "C16", "concurrent histories of GET/SET/SETNX/GETSET/INCR/DECRBY/APPEND/MSETNX/DEL over 1..3 keys. CONTROLLED mode (reference store with a turnstile before every primitive handler call): client A is parked at its g-th primitive call "+
 		"(g in 0..2, i.e. before Get, between Get and Set, ...) while client B's command is started - exhaustively for all pairs of operation kinds x g x {key absent, key=5}, and in random multi-round sequences; "+
 		"UNCONTROLLED mode: 2..8 clients x 1..4 operations on real goroutines against the reference store and against the bundled example store. Oracle: the recorded client-side history (logical-clock invoke/return stamps) must be linearizable "+
-		"against the sequential Redis model (porcupine, complete search). Non-trivial: two operations of different clients on the same key overlap in time and at least one writes. Distinct = distinct history (operations, order and results).")
+		"against the sequential Redis model (porcupine, complete search). TURNS mode: 2..3 clients taking turns without overlap against both stores (the history's only admissible order is the real-time one; state cached per connection shows here). In controlled and hammer runs a client may first receive an error reply (INCR of a non-integer). "+
+		"Non-trivial: two operations of different clients on the same key overlap in time and at least one writes (turns mode: operations of at least two clients). Distinct = distinct history (operations, order and results).")
 	defer h.Finish()
 	h.Probes()
 
@@ -441,19 +463,24 @@ func TestC16(t *testing.T) {
 			for _, a := range kinds {
 				for _, b := range kinds {
 					for g := 0; g <= 3; g++ {
-						hist, err := runControlled(init, [][3]interface{}{{a, b, g}})
-						if err != nil {
-							t.Fatalf("controlled run: %v", err)
-						}
-						if !record(hist, "controlled-pair") {
-							complete = false
-							break pairs
+						for _, warm := range [][2]bool{{false, false}, {true, false}, {false, true}} {
+							if (warm[0] || warm[1]) && g != 1 {
+								continue // warmed-up connections: parked between the first and the second primitive only
+							}
+							hist, err := runControlled(init, [][3]interface{}{{a, b, g}}, warm)
+							if err != nil {
+								t.Fatalf("controlled run: %v", err)
+							}
+							if !record(hist, "controlled-pair") {
+								complete = false
+								break pairs
+							}
 						}
 					}
 				}
 			}
 		}
-		h.Col.Exhaustive("controlled: all ordered pairs of 9 operation kinds x park point 0..3 x {absent, a=5}", complete)
+		h.Col.Exhaustive("controlled: all ordered pairs of 9 operation kinds x park point 0..3 x {absent, a=5}, and at park point 1 also with A or B having received an error reply before", complete)
 	}
 
 	// (a') random multi-round controlled sequences
@@ -468,7 +495,8 @@ func TestC16(t *testing.T) {
 		for i := 0; i < rounds; i++ {
 			rs = append(rs, [3]interface{}{c16GenOp(rt, nkeys), c16GenOp(rt, nkeys), rapid.IntRange(0, 3).Draw(rt, "gate")})
 		}
-		hist, err := runControlled(init, rs)
+		warm := [2]bool{rapid.IntRange(0, 3).Draw(rt, "warmA") == 0, rapid.IntRange(0, 3).Draw(rt, "warmB") == 0}
+		hist, err := runControlled(init, rs, warm)
 		if err != nil {
 			rt.Fatalf("controlled run: %v", err)
 		}
@@ -485,8 +513,15 @@ func TestC16(t *testing.T) {
 			p.Init = append(p.Init, []string{"SET", "a", "5"})
 		}
 		nc := rapid.IntRange(4, 8).Draw(rt, "clients")
+		warmAll := rapid.IntRange(0, 2).Draw(rt, "warm") == 0
+		if warmAll {
+			p.Init = append(p.Init, []string{"SET", "z", "abc"})
+		}
 		for i := 0; i < nc; i++ {
 			var ops [][]string
+			if warmAll {
+				ops = append(ops, []string{"INCR", "z"})
+			}
 			for j, k := 0, rapid.IntRange(1, 3).Draw(rt, "nops"); j < k; j++ {
 				v := strconv.Itoa(10*i + j)
 				switch kind {
@@ -515,6 +550,58 @@ func TestC16(t *testing.T) {
 		}
 		sort.Slice(hist.Ops, func(i, j int) bool { return hist.Ops[i].Call < hist.Ops[j].Call })
 		h.Col.Case(overlapping(hist), []byte(fmt.Sprint(hist.Store, hist.Init, hist.Ops)), "hammer:"+kind, "store:"+p.Store)
+		h.Fail(rt, "c16.history", hist, evalC16History(hist))
+	})
+
+	// (c) several clients taking turns (no overlap in time): the degenerate histories whose only sequential order is the real-time one
+	h.Rapid("turns", h.N(1500, 60000), func(rt *rapid.T) {
+		store := rapid.SampledFrom([]string{"example", "example", "refstore"}).Draw(rt, "store")
+		var srv *redis.Server
+		if store == "example" {
+			srv = exserver.NewServer().Server
+		} else {
+			srv = redis.NewServer()
+			srv.SetCommandHandler(doubles.NewRefStore())
+		}
+		nc := rapid.IntRange(2, 3).Draw(rt, "clients")
+		nkeys := rapid.IntRange(1, 2).Draw(rt, "nkeys")
+		m, err := connsim.NewMulti(srv, nc, serveTimeout())
+		if err != nil {
+			rt.Fatalf("multi: %v", err)
+		}
+		defer m.CloseAll()
+		hist := c16History{Store: store, Mode: "turns"}
+		var clock int64
+		for i, n := 0, rapid.IntRange(3, 12).Draw(rt, "nops"); i < n; i++ {
+			cl := rapid.IntRange(0, nc-1).Draw(rt, "client")
+			var cmd []string
+			switch rapid.IntRange(0, 5).Draw(rt, "plain") {
+			case 0, 1:
+				cmd = []string{"GET", c16Keys[rapid.IntRange(0, nkeys-1).Draw(rt, "key")]}
+			case 2, 3:
+				cmd = []string{"SET", c16Keys[rapid.IntRange(0, nkeys-1).Draw(rt, "key")], strconv.Itoa(rapid.IntRange(0, 9).Draw(rt, "val"))}
+			default:
+				cmd = c16GenOp(rt, nkeys)
+			}
+			clock++
+			call := clock
+			frames, _, err := m.Step(cl, resp.Cmd(cmd...).Bytes())
+			clock++
+			out := "<no reply>"
+			if len(frames) == 1 {
+				out = renderReply(frames[0])
+			}
+			hist.Ops = append(hist.Ops, c16Op{Client: cl, Cmd: cmd, Call: call, Ret: clock, Out: out})
+			if err != nil {
+				h.Fail(rt, "c16.history", hist, failf("c16|run-error|"+store, "run failed: %v", err))
+				return
+			}
+		}
+		clients := map[int]bool{}
+		for _, o := range hist.Ops {
+			clients[o.Client] = true
+		}
+		h.Col.Case(len(clients) >= 2, []byte(fmt.Sprint(hist.Store, hist.Mode, hist.Ops)), "turns", "store:"+store)
 		h.Fail(rt, "c16.history", hist, evalC16History(hist))
 	})
 
